@@ -1,0 +1,9 @@
+//go:build verif
+
+package cluster
+
+import "github.com/hashicorp/memberlist"
+
+// VerifDelegate exposes the memberlist delegate of the peer to the
+// verification harness (receive path fuzzing).
+func (p *Peer) VerifDelegate() memberlist.Delegate { return p.delegate }
